@@ -126,6 +126,16 @@ class Seeds:
                                     self.sinks.add((f.qualname, st.value.id))
 
     # ------------------------------------------------------------ local kinds
+    def is_stream_call(self, f: Func, e) -> bool:
+        """e is a call that produces a stream: to_stream(...), np.random.Generator(...), default_rng(...), RandomState(...)"""
+        if isinstance(e, ast.Call):
+            dn = dotted(e.func) or ""
+            if self.to_stream is not None and self.to_stream in self.res.resolve_call(f, e, by_name=False):
+                return True
+            if dn.split(".")[-1] in ("Generator", "default_rng", "RandomState"):
+                return True
+        return False
+
     def stream_vars(self, f: Func) -> Tuple[Set[str], Set[str]]:
         """(names holding a stream, names holding a list of streams) in f."""
         streams: Set[str] = set()
